@@ -129,14 +129,28 @@ pub fn canon_rdata(owner: &str, rtype: Rtype, rdata: &str) -> String {
 /// Sorted walk output: (owner, rtype, ttl, sorted rdata, at_cut).
 pub type WalkOut = Vec<(String, Rtype, u32, Vec<String>, bool)>;
 
+thread_local! {
+    /// Observations go through the asynchronous variants of the read
+    /// interface (`query_async`, `walk_async`): the same reader, the same
+    /// version.
+    static ASYNC_API: std::cell::Cell<bool> = const { std::cell::Cell::new(false) };
+}
+
 pub fn walk_zone(r: &dyn ReadableZone) -> WalkOut {
     let acc: Arc<Mutex<WalkOut>> = Arc::new(Mutex::new(Vec::new()));
     let acc2 = acc.clone();
-    r.walk(Box::new(move |owner, rrset, at_cut| {
+    let op: domain::zonetree::WalkOp = Box::new(move |owner, rrset, at_cut| {
         let mut rd: Vec<String> = rrset.data().iter().map(rdata_str).collect();
         rd.sort();
         acc2.lock().unwrap().push((owner_str(&owner), rrset.rtype(), rrset.ttl().as_secs(), rd, at_cut));
-    }));
+    });
+    if ASYNC_API.with(|c| c.get()) {
+        // (An in-memory zone has nothing to wait for: ready at once.)
+        use futures_util::FutureExt;
+        r.walk_async(op).now_or_never().expect("in-memory walk is ready at once");
+    } else {
+        r.walk(op);
+    }
     let mut v = std::mem::take(&mut *acc.lock().unwrap());
     v.sort();
     v
@@ -179,7 +193,13 @@ impl Ans {
 
 pub fn query_zone(r: &dyn ReadableZone, qname: &str, qtype: Rtype) -> Result<Ans, String> {
     let qn = stored_name(qname);
-    let answer = match r.query(qn.clone(), qtype) {
+    let res = if ASYNC_API.with(|c| c.get()) {
+        use futures_util::FutureExt;
+        r.query_async(qn.clone(), qtype).now_or_never().expect("in-memory query is ready at once")
+    } else {
+        r.query(qn.clone(), qtype)
+    };
+    let answer = match res {
         Ok(a) => a,
         Err(_) => return Err("OutOfZone".into()),
     };
@@ -396,10 +416,17 @@ struct Observation {
 }
 
 fn observe(r: &dyn ReadableZone, probes: &[Probe]) -> Observation {
-    Observation {
+    let via_async = sim::chance("reader.async_api", 1, 3);
+    if via_async {
+        sim::stat("probe.observed_through_the_async_read_interface");
+    }
+    ASYNC_API.with(|c| c.set(via_async));
+    let o = Observation {
         walk: walk_zone(r),
         answers: probes.iter().map(|p| query_zone(r, &p.qname, p.qtype)).collect(),
-    }
+    };
+    ASYNC_API.with(|c| c.set(false));
+    o
 }
 
 /// The names whose tree nodes a lookup of `qname` may visit: the name, its
